@@ -65,3 +65,29 @@ Theorem C07_marker225_law : forall e,
   marker_elem 225255 e = mkElem (e_id e) (e_unit e) (e_scale e) (- 2 ^ e_nbits e) (e_nbits e + 1).
 Proof. exact marker225_law. Qed.
 Print Assumptions C07_marker225_law.
+
+(* ---- the hierarchical view (templatedata.py wire) -------------------------------- *)
+From PBK Require Import Wire WireProofs WireAttrs.
+
+(* every attribute shown in the hierarchical view is where the links (or the 204 rule)
+   put it: an associated field hangs on the element it precedes; any other attribute of
+   a node is a bitmap-driven value whose link designates exactly that node, or a meaning
+   node (031021 / 008023 / 008024) wired earlier.  For every template on which wiring
+   succeeds, every value list and every link map. *)
+Theorem C07_wire_attrs_sound : forall ndesc vals links T nodes s,
+  wire ndesc vals links T = Ok (nodes, s) ->
+  forall o a b, In (o, a, b) (x_attrs s) ->
+    (b = true -> o = (a + 1)%N) /\
+    (b = false -> link_of links a = Some o \/ (a < o)%N).
+Proof. exact wire_attrs_sound. Qed.
+Print Assumptions C07_wire_attrs_sound.
+
+(* a marker operator's value (223255 / 224255 / 225255 / 232255) becomes an attribute of
+   exactly the node the coder linked it to *)
+Theorem C07_marker_value_attribute : forall ndesc links id s n s',
+  ((id / 1000 =? 223) || (id / 1000 =? 224) || (id / 1000 =? 225) || (id / 1000 =? 232))%N = true ->
+  (Z.of_N (id mod 1000) =? 0)%Z = false ->
+  J links s -> wire_operator ndesc links id s = Ok (n, s') ->
+  exists i o, n = WValue i /\ link_of links i = Some o /\ In (o, i, false) (x_attrs s').
+Proof. exact marker_value_attribute. Qed.
+Print Assumptions C07_marker_value_attribute.
